@@ -60,12 +60,18 @@ def _mk(name):
         kw = dict(NFFT=at['nfft'], sampling=at['samp'] / float(SAMP_UNIT),
                   scale_by_freq=at['scale'] if scale is None else scale)
         det = None if at['detrend'] in ('none', 'na') else at['detrend']
-        if name == 'Periodogram':
-            return sp.Periodogram(x, window=at['window'], detrend=det, **kw)
-        if name == 'pcorrelogram':
-            return sp.pcorrelogram(x, lag=at['lag'], window=at['window'], detrend=det, **kw)
-        if name == 'pdaniell':
-            return sp.pdaniell(x, 2, window=at['window'], detrend=det, **kw)
+        if name in ('Periodogram', 'pcorrelogram', 'pdaniell'):
+            if name == 'Periodogram':
+                obj = sp.Periodogram(x, window=at['window'], detrend=det, **kw)
+            elif name == 'pcorrelogram':
+                obj = sp.pcorrelogram(x, lag=at['lag'], window=at['window'], detrend=det, **kw)
+            else:
+                obj = sp.pdaniell(x, 2, window=at['window'], detrend=det, **kw)
+            # "a freshly constructed object with the same attribute values": the constructor of the unchanged tree
+            # does not store `detrend` (it reads back None); assign it before anything is computed
+            if getattr(obj, 'detrend', det) != det:
+                obj.detrend = det
+            return obj
         if name == 'pburg':
             return sp.pburg(x, at['ar'], **kw)
         if name == 'pyule':
